@@ -197,6 +197,8 @@ Fixpoint map_set (m : list (string * string)) (k v : string) : list (string * st
   end.
 Definition map_update (m1 m2 : list (string * string)) : list (string * string) :=
   fold_left (fun m kv => map_set m (fst kv) (snd kv)) m2 m1.
+(* mapFilter((k,v) -> v != '', m): the pairs of a map whose value is not '' *)
+Definition nonempty_kv (kv : string * string) : bool := negb (String.eqb (snd kv) "").
 
 (* string literals of a list of objects *)
 Fixpoint str_lits (l : list expr) : option (list string) :=
@@ -501,13 +503,20 @@ Section EVAL.
       end
     | WithId f => ev (f 0%N) g                 (* the id only names an alias inside the object *)
     | Sep sep parts =>
-      (* sqlJsonParser: mapFromArrays(['l1',...], [<path2Sql>,...]) *)
+      (* sqlJsonParser: mapFilter((k,v) -> v != '', mapFromArrays(['l1',...], [<path2Sql>,...])): an extraction that yields ''
+         (missing path, not JSON) writes no label; before the repair of json-missing-path-overwrites the text was the bare
+         mapFromArrays(...) and every parameter label was written *)
       match parts with
       | [Raw t1; Sep s1 ls; Raw t2; Sep s2 ps; Raw t3] =>
         if String.eqb sep "" && String.eqb t1 "mapFromArrays([" && String.eqb s1 "," && String.eqb t2 "], ["
            && String.eqb s2 "," && String.eqb t3 "])" then
           match str_lits ls, map_opt (fun p => match ev p g with Some (VStr v) => Some v | _ => None end) ps with
           | Some ks, Some vs => if Nat.eqb (List.length ks) (List.length vs) then Some (VMap (combine ks vs)) else None
+          | _, _ => None end
+        else if String.eqb sep "" && String.eqb t1 "mapFilter((k,v) -> v != '', mapFromArrays([" && String.eqb s1 "," && String.eqb t2 "], ["
+           && String.eqb s2 "," && String.eqb t3 "]))" then
+          match str_lits ls, map_opt (fun p => match ev p g with Some (VStr v) => Some v | _ => None end) ps with
+          | Some ks, Some vs => if Nat.eqb (List.length ks) (List.length vs) then Some (VMap (filter nonempty_kv (combine ks vs))) else None
           | _, _ => None end
         else None
       | _ => None
